@@ -144,7 +144,7 @@ def multi_change_records(in_vcf, out_vcf):
     return n
 
 
-def execute(ctx, spec, opts_list):
+def execute(ctx, spec, opts_list, timeout=G.RUN_TIMEOUT):
     """Build the scenario, run every option set, return [(replay, case_term, meta) | (replay, None, error)]."""
     wd = workdir(ctx)
     sc, trios = G.build_scenario(spec, wd)
@@ -153,7 +153,7 @@ def execute(ctx, spec, opts_list):
         tag = f"r{n}"
         replay = {"spec": spec, "opt": opt}
         try:
-            insts = G.run_phase(ctx, wd, sc, opt, tag)
+            insts = G.run_phase(ctx, wd, sc, opt, tag, timeout=timeout)
             intern = G.Interner()
             files = {"reads": G.parse_list_file(os.path.join(wd, f"reads.{tag}.tsv"), "reads", intern),
                      "gts": G.parse_list_file(os.path.join(wd, f"gts.{tag}.tsv"), "gts", intern),
@@ -204,6 +204,8 @@ def execute(ctx, spec, opts_list):
             meta["recs_only_last_instance"] = len(insts) > 1 and rl == list(inst_recs[-1] or []) and \
                 any(es for es in inst_recs[:-1])
             out.append((replay, t, meta))
+        except G.TimedOut as e:
+            out.append((replay, None, ("phase:run-timeout", str(e))))
         except G.Unparseable as e:
             out.append((replay, None, ("phase:list-file-unparseable", str(e))))
         except G.RunFailed as e:
@@ -464,7 +466,15 @@ def evaluate(ctx, results):
 def run_jobs(ctx, jobs):
     with ThreadPoolExecutor(max_workers=12) as ex:
         res = list(ex.map(lambda j: execute(ctx, j[0], j[1]), jobs))
-    return [x for r in res for x in r]
+    out = []
+    for x in [x for r in res for x in r]:
+        if x[1] is None and x[2][0] == "phase:run-timeout":
+            # the time limit may have been hit only because the machine is loaded: repeat this single run on its
+            # own (the pool is finished) with four times the limit; a second timeout is reported as a hang
+            ctx.tally("runs_repeated_after_timeout")
+            x = execute(ctx, x[0]["spec"], [x[0]["opt"]], timeout=4 * G.RUN_TIMEOUT)[0]
+        out.append(x)
+    return out
 
 
 def search_jobs(ctx, n):
